@@ -102,6 +102,7 @@ class Sched:
         self.deaths = []           # threads whose run() raised
         self.trace = None          # optional list of readable events (replay / debugging)
         self.line_hits = 0
+        self.wall_steps = []        # [[virtual seconds since start, step forward in seconds], ...] applied to time() only
         self.slow_steps = []        # (thread name, CPU seconds, kind of the yield that ended the step)
         self.stalls = 0
         self.inst_steps = {}
@@ -859,8 +860,15 @@ class TimeFacade:
         self.gmtime = _t.gmtime
 
     def time(self):
+        # the wall clock can be stepped (NTP, VM resume): plan["clock_jumps"] = [[virtual instant, seconds forward], ...]
+        # shift what time() reports from that instant on; sleeps, timeouts and monotonic() are unaffected
         self._s.tick()
-        return self._s.now
+        now = self._s.now
+        off = 0.0
+        for at, delta in self._s.wall_steps:
+            if now - EPOCH >= at:
+                off += delta
+        return now + off
 
     def monotonic(self):
         # a clock of its own, as on a real system: unrelated to the epoch-based time() (mixing the two must not go unnoticed)
